@@ -337,6 +337,9 @@ func (s *vSink) emit(l *vLine) {
 	l.G = s.g
 	l.Case = s.caseID
 	l.Exact = s.exact
+	if !s.exact {
+		vRankIncs(l)
+	}
 	if s.keep != nil && !s.keep(l) {
 		return
 	}
@@ -351,6 +354,32 @@ func (s *vSink) emit(l *vLine) {
 		}
 		s.w.Write(b)
 		s.w.WriteByte('\n')
+	}
+}
+
+// vRankIncs replaces the incarnation numbers of a line by their dense ranks (order and
+// equality are preserved, which is all the property predicates look at).  Used for
+// concretisations whose incarnations exceed the 32-bit integers of TLC.
+func vRankIncs(l *vLine) {
+	ptrs := []*int64{&l.Claim.Inc, &l.Pre.Inc, &l.Post.Inc, &l.IncPre, &l.IncPost}
+	for i := range l.Bcast {
+		ptrs = append(ptrs, &l.Bcast[i].Inc)
+	}
+	vals := map[int64]bool{}
+	for _, p := range ptrs {
+		vals[*p] = true
+	}
+	sorted := make([]int64, 0, len(vals))
+	for v := range vals {
+		sorted = append(sorted, v)
+	}
+	sort.Slice(sorted, func(i, j int) bool { return sorted[i] < sorted[j] })
+	rank := map[int64]int64{}
+	for i, v := range sorted {
+		rank[v] = int64(i)
+	}
+	for _, p := range ptrs {
+		*p = rank[*p]
 	}
 }
 
@@ -417,21 +446,18 @@ func vInts(b []uint8) []int {
 }
 
 func (n *vNode) addrStr(ip []byte) string {
-	if len(ip) == 0 {
-		return ""
-	}
-	var s string
-	if len(ip) == 4 || len(ip) == 16 {
-		s = net.IP(ip).String()
-	} else {
-		s = "raw:" + hex.EncodeToString(ip)
-	}
 	if n.labels != nil {
-		if l, ok := n.labels.addr[s]; ok {
+		if l, ok := n.labels.addr[net.IP(ip).String()]; ok {
 			return l
 		}
 	}
-	return s
+	if len(ip) == 0 {
+		return ""
+	}
+	if len(ip) == 4 || len(ip) == 16 {
+		return net.IP(ip).String()
+	}
+	return "raw:" + hex.EncodeToString(ip)
 }
 
 func (n *vNode) metaStr(b []byte) string {
